@@ -402,6 +402,20 @@ pub fn main(args: &[String]) {
                 }
             }
         }
+        "runs" => {
+            // stretches of consecutive code points (all digits of a script, part of an alphabet), with tails that
+            // satisfy contextual rules
+            let starts: [u32; 16] = [0x30, 0x41, 0x660, 0x6f0, 0x966, 0x5d0, 0x621, 0x3b1, 0x3041, 0x30a1, 0x30f5, 0xff10, 0xff21, 0x10400, 0x2000, 0xb0];
+            let tails: [&str; 5] = ["", "\u{30fb}\u{30ab}", "\u{65e5}\u{30fb}", "l\u{b7}l", "\u{5d0}"];
+            for st in starts.iter() {
+                for n in [6usize, 10, 11, 16] {
+                    let tail = *rng.pick(&tails);
+                    let mut s: String = (0..n as u32).filter_map(|k| char::from_u32(st + k)).collect();
+                    s.push_str(tail);
+                    rec.exercise(&mut rng, &s, per_string, &kinds, &profiles);
+                }
+            }
+        }
         "families" => {
             // compare matrices of variant families
             for i in 0..n_strings {
